@@ -187,6 +187,9 @@ def gen_cases(draw):
                 cfg = {"filter_method": m}
                 if draw(st.booleans()):
                     cfg["filter_size"] = draw(st.sampled_from([1, 3, 5, 7, 9]))
+                if m == "median_for_intervals" and draw(st.booleans()):
+                    cfg["regularization"] = draw(st.booleans())
+                    cfg["vertical_depth"] = draw(st.sampled_from([0, 1, 3]))
             return [nm(k), cfg]
         if k == "refinement":
             return [nm(k), {"refinement_method": draw(st.sampled_from(["vfit", "quadratic"]))}]
@@ -237,6 +240,11 @@ def filter_cases(draw):
             cfg["sigma_space"] = draw(st.floats(0.3, 30.0).map(lambda x: round(x, 2)))
     elif draw(st.booleans()):
         cfg["filter_size"] = draw(st.sampled_from([1, 3, 5, 7, 9, 11]))
+    if m == "median_for_intervals" and draw(st.booleans()):
+        # the other parameters of the interval filter have no bearing on its margins
+        cfg["regularization"] = draw(st.booleans())
+        cfg["vertical_depth"] = draw(st.sampled_from([0, 1, 2, 4]))
+        cfg["ambiguity_kernel_size"] = draw(st.sampled_from([1, 3, 5]))
     return {"cfg": cfg, "shape": [draw(st.integers(1, 300)), draw(st.integers(1, 300))], "step": draw(st.integers(1, 3))}
 
 
